@@ -12,7 +12,7 @@ TABLE = [
     ("use-defusedxml", "xml.dom.minidom", "parse", ["p", "p, bufsize=8", "*a, **k"], "defusedxml", None),
     ("harden-pickle-load", "pickle", "load", ["f", "f, encoding='x'", "*a"], "fickling", None),
     ("https-connection", "urllib3", "HTTPConnectionPool", ["'h'", "'h', 80, maxsize=2", "h, **k"], "HTTPSConnectionPool", None),
-    ("subprocess-shell-false", "subprocess", "run", ["cmd, shell=True", "cmd, shell=True, check=True", "cmd, check=True, shell=True"], "shell=False", ("shell=True", "shell=False")),
+    ("subprocess-shell-false", "subprocess", "run", ["cmd, shell=True", "cmd, shell=True, check=True", "cmd, check=True, shell=True", "[c, h(d, shell=True)], shell=True"], "shell=False", ("shell=True", "shell=False")),
 ]
 
 
@@ -56,7 +56,7 @@ def build(entry, style: int, args: int, decoy: int):
         lines += d
         keep += d
     elif decoy % 3 == 2:
-        d = ["s = print(%s)" % a.replace("*a", "1").replace("**k", "sep=''").replace("shell=True", "end=''")]
+        d = ["s = print(%s)" % a.replace("*a", "1").replace("**k", "sep=''").replace("h(d, shell=True)", "d").replace("shell=True", "end=''")]
         lines += d
         keep += d
     return "\n".join(lines) + "\n", target, a, keep
@@ -90,7 +90,8 @@ def check(entry, style, args, decoy):
             return "the safe API (%s) does not appear:\n%s" % (marker, out)
         exp = _call_args(target)
         if rewrite:
-            exp = [x.replace(rewrite[0], rewrite[1]) for x in exp]
+            # only the call's OWN keyword is rewritten - a nested call carrying the same keyword keeps it
+            exp = [rewrite[1] if x == rewrite[0] else x for x in exp]
         got = _call_args(r_lines[0])
         # documented edits may append arguments; the original ones must be kept, in order, as a prefix-preserving subsequence
         it = iter(got)
